@@ -33,6 +33,13 @@ func optionValue(p *pwPath, v ssa.Value, opts ssa.Value, name string) bool {
 	if !ok || !ta.CommaOk {
 		return false
 	}
+	// a default kept in a constant table: table[<name>].(T) with the entry a constant of type T
+	if mi, isMI := p.resolve(ta.X).(*ssa.MakeInterface); isMI {
+		if _, isC := p.resolve(mi.X).(*ssa.Const); isC && types.Identical(mi.X.Type(), ta.AssertedType) {
+			return true
+		}
+		return false
+	}
 	lk, ok := p.resolve(ta.X).(*ssa.Lookup)
 	if !ok {
 		return false
